@@ -123,6 +123,8 @@ def render_btoks(toks):
             x = "// " + t["n"]
         elif k == "pos":
             x = "`" + t["n"]
+        elif k == "inc":
+            x = '`include "%s"' % t["n"]
         else:
             raise ValueError(k)
         if not prev_glue:
